@@ -101,7 +101,7 @@ def judge(data: bytes, vb: VB, seen_texts: set) -> str:
         return "dup"
     seen_texts.add(text)
     wit = lambda: {"bytes": data[: ins.length()].hex(), "text": text}  # noqa: E731
-    shp = shape_of(text)
+    shp = f"{shape_of(text)}/op={ins.opcode:02X}"
     out, emsg = assemble(text)
     if out is None:
         vb.add(f"C09/assembler-{classify_error(emsg)}/{shp}", f"'{text}' (from {data[: ins.length()].hex()}): {emsg}", wit)
